@@ -264,7 +264,7 @@ func runRefCount(walksPath, tablesPath, dir, outPath string, stress int) {
 			diffs = append(diffs, rcDiff{Step: -1, What: "Open", Got: err.Error()})
 			continue
 		}
-		const holders = 6
+		const holders = 12
 		for h := 0; h < holders; h++ {
 			seg.AddRef()
 		}
